@@ -514,13 +514,10 @@ func (p *Parser) parseComponentStmt() ast.Statement {
 	if p.peekTokenIs(token.SLOT) {
 		p.nextToken() // skip ")"
 		stmt.Slots = p.parseSlots()
-	} else if p.peekTokenIs(token.HTML) && isWhitespace(p.peekToken.Literal) {
+	} else if p.peekTokenIs(token.HTML) && isWhitespace(p.peekToken.Literal) && p.slotFollowsPeek() {
 		p.nextToken() // skip ")"
-
-		if p.peekTokenIs(token.SLOT) {
-			p.nextToken() // skip whitespace
-			stmt.Slots = p.parseSlots()
-		}
+		p.nextToken() // skip whitespace
+		stmt.Slots = p.parseSlots()
 	}
 
 	// a component that passes slots is closed by its own "@end"
@@ -593,6 +590,13 @@ func (p *Parser) parseDumpStmt() *ast.DumpStmt {
 		Token:     tok,
 		Arguments: args,
 	}
+}
+
+// slotFollowsPeek reports whether the token after the peek token is "@slot".
+// It reads ahead on a copy of the lexer, so no token is consumed.
+func (p *Parser) slotFollowsPeek() bool {
+	l := *p.l
+	return l.NextToken().Type == token.SLOT
 }
 
 func (p *Parser) parseSlots() []*ast.SlotStmt {
